@@ -265,6 +265,20 @@ NOT_APPLICABLE = {
 PENDING_REASON = "check not built yet in this round (see DESIGN.md section 9 build order); no claim is made"
 
 
+def _deps():
+    """read the dependency lists from the check mains (for dep in [...]: chk.include(dep))"""
+    import re
+    out = {}
+    for pid in CHECKS:
+        src = open(os.path.join(V, "checks", pid.lower() + ".py")).read()
+        m = re.search(r"    for dep in (\[[^\]]*\]):\n        chk.include\(dep\)", src)
+        out[pid] = eval(m.group(1)) if m else []
+    return out
+
+
+DEPS = _deps()
+
+
 def main():
     props = [json.loads(l)["id"] for l in open(os.path.join(V, "properties.jsonl"))]
     checks = []
@@ -282,7 +296,8 @@ def main():
             "replay_cmd_template": "./check %s --replay {path}" % pid,
             "engine": "eir",
             "level_claimed": {"category": c["cat"], "text": c["text"], "design_ref": c["ref"]},
-            "level_note": c["note"],
+            "level_note": c["note"] + (" Obligations named dep:<id>:* are those of the lower-layer checks whose specifications this check relies on (%s); they are "
+                                       "registered here as well so that a change below that breaks this property is reported by this check." % ", ".join(DEPS[pid]) if DEPS.get(pid) else ""),
             "technique": c.get("tech", TECH),
         })
     m = {
@@ -302,7 +317,8 @@ def main():
         ],
         "checks": checks,
         "not_applicable": na,
-        "notes": "All checks regenerate their encoding from /repo's working tree on every run. Exit 0 = all obligations discharged "
+        "notes": "All checks regenerate their encoding from /repo's working tree on every run; each check process uses its own scratch tree (.work/run-<pid>), "
+                 "so checks may run concurrently. Exit 0 = all obligations discharged "
                  "(or only known findings), 1 = VIOLATION (reproduced natively), 2 = inconclusive (solver/engine gave no verdict).",
     }
     with open(os.path.join(V, "MANIFEST.json"), "w") as f:
